@@ -229,6 +229,17 @@ def s5(ck, an):
 
 
 def s6(ck, an):
+    fi = an.fa("LimitOrderBook.__init__")
+    for prm in ("bid_price", "ask_price"):
+        d = fi.f.param_default(prm)
+        ck.check(d is not None and ast.unparse(d) in ("np.nan", "numpy.nan", "float('nan')", "math.nan"), "CONST", f"S6.never-quoted-is-nan-{prm}", fi.f.short, fi.f.loc, f"a book that was never quoted has {prm} = NaN (no price)",
+                 f"default {prm} is {ast.unparse(d) if d is not None else 'missing'}: a never-quoted contract would be valued at that number", construct=f"{prm} default")
+        st = assigns_to_attr(fi, prm)
+        ck.check(len(st) == 1 and isinstance(st[0], ast.Assign) and ast.unparse(st[0].value) == prm, "ARGFLOW", f"S6.book-stores-{prm}", fi.f.short, fi.f.loc, f"the book stores {prm} as given", f"{prm} = {[ast.unparse(x.value) for x in st if isinstance(x, ast.Assign)]}",
+                 construct=f"self.{prm} = {prm}")
+    from rules import C14
+    from sa.report import Renamed
+    C14.s5(Renamed(ck, "C14:"), an)
     fa = an.fa("Exchange.process_EventNBBO")
     for c in fa.calls_to("LimitOrderBook.update"):
         preds = fa.guard_predicates(c)
